@@ -99,14 +99,15 @@ class DAGRunConcurrentManager(DAGRunManagerLike):
     _lock_manager: DAGConcurrentManagerLock = field(init=False)
     _memorization_store: t.Dict[t.Any, t.Any] = field(default_factory=dict)
     _coro_tasks: t.Set[asyncio.Task] = field(default_factory=set)
+    _stopped_coro_tasks: t.Set[asyncio.Task] = field(default_factory=set)
+    _cancelled_errors: t.Dict[asyncio.Task, asyncio.CancelledError] = field(default_factory=dict)
     _additional_data: t.Dict[NodeId, t.Any] = field(default_factory=dict)
     _alias_run_method: str = 'run'
 
     def __post_init__(self) -> None:
         self._lock_manager = DAGConcurrentManagerLock(self.dag.node_map.keys())
 
-    @staticmethod
-    def _stop_coro_tasks(*coro_tasks: asyncio.Task) -> None:
+    def _stop_coro_tasks(self, *coro_tasks: asyncio.Task) -> None:
         """
         Stop running the coro tasks
         """
@@ -117,18 +118,36 @@ class DAGRunConcurrentManager(DAGRunManagerLike):
                 continue
 
             coro_task.cancel()
+            self._stopped_coro_tasks.add(coro_task)
             logger.debug('Task %s has been cancelled', coro_task.get_name())
 
-    @staticmethod
-    def _get_first_error_in_tasks(coro_tasks: t.Iterable[asyncio.Task]) -> t.Optional[t.Type[Exception]]:
+    def _get_first_error_in_tasks(self, coro_tasks: t.Iterable[asyncio.Task]) -> t.Optional[BaseException]:
         """
         Check if there is an error in the coro tasks and return the first one
         """
 
         for coro_task in coro_tasks:
-            # Task.exception() raises CancelledError for a cancelled task; tasks cancelled by the engine
-            # itself (e.g. the remaining nodes of a failed OneOf branch) are not errors of the DAG.
-            if coro_task.done() and not coro_task.cancelled() and isinstance(coro_task.exception(), BaseException):
+
+            if not coro_task.done():
+                continue
+
+            if coro_task.cancelled():
+                # Tasks cancelled by the engine itself (e.g. whatever is still running at the end) are not errors of
+                # the DAG. A CancelledError that the code of a node raised on its own is the node's failure, as any
+                # other BaseException: nobody would ever get a result for the node.
+                if coro_task in self._stopped_coro_tasks:
+                    continue
+
+                if coro_task not in self._cancelled_errors:
+                    try:
+                        coro_task.exception()
+                    except asyncio.CancelledError as ex:
+                        # The task hands out the original exception only once
+                        self._cancelled_errors[coro_task] = ex
+
+                return self._cancelled_errors[coro_task]
+
+            elif isinstance(coro_task.exception(), BaseException):
                 return coro_task.exception()
 
         return None
